@@ -9,6 +9,7 @@ package main
 
 import (
 	"fmt"
+	"github.com/dominant-strategies/go-quai/consensus/kawpow"
 	"math/big"
 	"os"
 	"time"
@@ -76,6 +77,10 @@ type hier struct {
 	nextData            []byte
 }
 
+// hierRealKawpow: the next level is built with the real KAWPOW engine in the merge-mining slot (the mining harness uses
+// blake3pow there as well, so that it can seal)
+var hierRealKawpow bool
+
 func newHLevel(db ethdb.Database, loc common.Location, allocs []params.GenesisAccount, nzones int) (*hLevel, common.Hash, consensus.Engine, error) {
 	logger := log.Global
 	gen := core.DefaultLocalGenesisBlock("blake3", 0, nil)
@@ -96,6 +101,9 @@ func newHLevel(db ethdb.Database, loc common.Location, allocs []params.GenesisAc
 	eng := make([]consensus.Engine, params.TotalPowEngines)
 	eng[0] = blake3pow.New(pow, nil, false, logger)
 	eng[types.Kawpow] = eng[0]
+	if hierRealKawpow {
+		eng[types.Kawpow] = kawpow.New(params.PowConfig{PowMode: params.ModeNormal, CachesInMem: 1, NodeLocation: loc}, nil, false, logger)
+	}
 	mcfg := &core.Config{QuaiCoinbase: chainCoinbase, QiCoinbase: chainCoinbase, GasCeil: params.LocalGasCeil, GasPrice: big.NewInt(1), Recommit: time.Hour, ExtraData: []byte("verif")}
 	tcfg := core.DefaultTxPoolConfig
 	tcfg.Journal = ""
